@@ -158,6 +158,16 @@ func runCloseRace(name string, seed int64, rounds int, bw *bufio.Writer) {
 					default:
 					}
 					r := (c*31 + i) % MaxRPC
+					if c%2 == 1 {
+						// a handler that answers with a run of messages: at the moment of the Close /
+						// Stop some handler is in the middle of sending
+						p := &autoPlan{shape: "SS", cSends: []int{10}, hSends: []int{10, 10, 10, 10, 10, 10, 10, 10, 10, 10, 10, 10, 10, 10, 10, 10, 10, 10, 10, 10}}
+						w.mu.Lock()
+						w.autoPlans[r] = p
+						w.mu.Unlock()
+						w.autoCall(r, ch, p, rand.New(rand.NewSource(int64(c*1000+i))))
+						continue
+					}
 					w.mu.Lock()
 					w.autoPlans[r] = &autoPlan{shape: "U", cSends: []int{10}, respSz: 10}
 					w.mu.Unlock()
@@ -174,7 +184,7 @@ func runCloseRace(name string, seed int64, rounds int, bw *bufio.Writer) {
 		w.mu.Lock()
 		ts := w.tunnels[0]
 		w.mu.Unlock()
-		if cfg.Mode == "rev" && round%4 == 1 && w.revServer != nil {
+		if cfg.Mode == "rev" && (round%4 == 1 || round >= 28) && w.revServer != nil {
 			// the serving side stops instead: Stop half-closes the carrier of every tunnel it tracks
 			w.revServer.Stop()
 		} else if ts.ch != nil {
